@@ -266,7 +266,7 @@ func runOverlayTest(repo, pkgDir, fileName, src, run string) (string, error) {
 	rel, _ := filepath.Rel(repo, pkgDir)
 	ctx, cancel := context.WithTimeout(context.Background(), 180*time.Second)
 	defer cancel()
-	cmd := exec.CommandContext(ctx, "go", "test", "-overlay", ovf, "-vet=off", "-count=1", "-timeout", "60s", "-run", run, "./"+rel)
+	cmd := exec.CommandContext(ctx, "go", "test", "-v", "-overlay", ovf, "-vet=off", "-count=1", "-timeout", "60s", "-run", run, "./"+rel)
 	cmd.Dir = repo
 	cmd.Env = cleanEnv()
 	out, err := cmd.CombinedOutput()
